@@ -41,6 +41,12 @@ type duplexHTTPCall struct {
 	requestBodyWriter *io.PipeWriter
 
 	sendRequestOnce sync.Once
+	// requestDone is closed once the request side is finished: CloseWrite was
+	// called or the call failed. Until then a goroutine watches the context,
+	// because net/http can't observe cancellation while it's blocked reading
+	// the (idle) request body pipe.
+	requestDone     chan struct{}
+	requestDoneOnce sync.Once
 	responseReady   chan struct{}
 	request         *http.Request
 	response        *http.Response
@@ -71,6 +77,7 @@ func newDuplexHTTPCall(
 		requestBodyReader: pipeReader,
 		requestBodyWriter: pipeWriter,
 		request:           request,
+		requestDone:       make(chan struct{}),
 		responseReady:     make(chan struct{}),
 	}
 	if err != nil {
@@ -112,6 +119,7 @@ func (d *duplexHTTPCall) CloseWrite() error {
 	// ensures that we've sent any headers to the server and that we have an HTTP
 	// response to read from.
 	d.ensureRequestMade()
+	d.finishRequest()
 	// The user calls CloseWrite to indicate that they're done sending data. It's
 	// safe to close the write side of the pipe while net/http is reading from
 	// it.
@@ -154,6 +162,13 @@ func (d *duplexHTTPCall) Read(data []byte) (int, error) {
 		return 0, fmt.Errorf("nil response from %v", d.request.URL)
 	}
 	n, err := d.response.Body.Read(data)
+	if err != nil && !errors.Is(err, io.EOF) {
+		if ctxErr := d.ctx.Err(); ctxErr != nil {
+			// The read failed because the context ended (possibly because
+			// watchContext tore down the request): report the context's error.
+			return n, wrapIfContextError(ctxErr)
+		}
+	}
 	// If the context is canceled or times out while we're blocked reading the
 	// response, net/http fails the read with the context's error: report it
 	// with the matching code rather than as a protocol error.
@@ -213,6 +228,7 @@ func (d *duplexHTTPCall) SetError(err error) {
 	// Closing the read side of the request body pipe acquires an internal lock,
 	// so we want to scope errMu's usage narrowly and avoid defer.
 	d.errMu.Unlock()
+	d.finishRequest()
 
 	// We've already hit an error, so we should stop writing to the request body.
 	// It's safe to call Close more than once and/or concurrently (calls after
@@ -237,7 +253,25 @@ func (d *duplexHTTPCall) BlockUntilResponseReady() {
 func (d *duplexHTTPCall) ensureRequestMade() {
 	d.sendRequestOnce.Do(func() {
 		go d.makeRequest()
+		if d.ctx.Done() != nil {
+			go d.watchContext()
+		}
 	})
+}
+
+// watchContext fails the call if the context ends while the request side is
+// still open. That closes the request body pipe, which is the only way to
+// unblock an HTTP transport that's waiting for more request data.
+func (d *duplexHTTPCall) watchContext() {
+	select {
+	case <-d.ctx.Done():
+		d.SetError(d.ctx.Err())
+	case <-d.requestDone:
+	}
+}
+
+func (d *duplexHTTPCall) finishRequest() {
+	d.requestDoneOnce.Do(func() { close(d.requestDone) })
 }
 
 func (d *duplexHTTPCall) makeRequest() {
